@@ -973,6 +973,55 @@ def ambient_read_scan(ops) -> list[str]:
     return sorted(set(out))
 
 
+def ambient_rebuild_scan(ops) -> list[str]:
+    """Operator classes whose CONSTRUCTOR reads ambient state capture it at creation (InverseOperator.config).  Any
+    method resolved on such a class (or a subclass) that constructs a new instance of it - `type(self)(...)`,
+    `self.__class__(...)`, `Cls(...)` with Cls a capturing class or a subclass of one - silently replaces the captured
+    state by the one active when that method runs (reduce() at trace time, .T, ...).  The functions are taken as the
+    class resolves them: the first definition along the furax part of the MRO."""
+    ctor = ('__init__', '__post_init__', '__check_init__')
+    capturing: dict = {}
+    for c in ops:
+        glob = vars(sys.modules[c.__module__])
+        for fn in [n for n in class_ast(c).body if isinstance(n, (ast.FunctionDef, ast.AsyncFunctionDef)) and n.name in ctor]:
+            reads = sorted({n.id for n in ast.walk(fn) if isinstance(n, ast.Name) and isinstance(n.ctx, ast.Load) and n.id in glob and _ambient_object(glob[n.id])})
+            if reads:
+                capturing[c] = reads
+    out: list[str] = []
+    for c in ops:
+        caps = [k for k in c.__mro__ if k in capturing]
+        if not caps:
+            continue
+        resolved: set[str] = set()
+        for k in c.__mro__:
+            if not is_furax(k):
+                continue
+            glob = vars(sys.modules[k.__module__])
+            for fn in [n for n in class_ast(k).body if isinstance(n, (ast.FunctionDef, ast.AsyncFunctionDef))]:
+                if fn.name in ctor or fn.name in resolved:
+                    continue
+                resolved.add(fn.name)
+                for n in ast.walk(fn):
+                    if not isinstance(n, ast.Call):
+                        continue
+                    f, what = n.func, None
+                    if isinstance(f, ast.Call) and isinstance(f.func, ast.Name) and f.func.id == 'type' and len(f.args) == 1 and isinstance(f.args[0], ast.Name) and f.args[0].id == 'self':
+                        what = 'type(self)(...)'
+                    elif isinstance(f, ast.Attribute) and f.attr == '__class__' and isinstance(f.value, ast.Name) and f.value.id == 'self':
+                        what = 'self.__class__(...)'
+                    elif isinstance(f, ast.Name) and inspect.isclass(glob.get(f.id)) and any(issubclass(glob[f.id], cap) for cap in capturing):
+                        what = f'{f.id}(...)'
+                    elif isinstance(f, ast.Attribute) and f.attr == 'replace' and isinstance(f.value, ast.Name) and f.value.id == 'dataclasses' and n.args and isinstance(n.args[0], ast.Name) and n.args[0].id == 'self':
+                        what = 'dataclasses.replace(self, ...)'
+                    if what:
+                        out.append(
+                            f'{c.__name__}.{fn.name} (defined in {k.__name__}) constructs {what}: the constructor of '
+                            f'{caps[0].__name__} reads ambient state {capturing[caps[0]]}, so the new object holds the configuration active when '
+                            f'{fn.name}() runs instead of the one captured at creation'
+                        )
+    return sorted(set(out))
+
+
 def generate(gen_dir: Path) -> dict:
     import_all()
     objs = Objects()
@@ -988,7 +1037,7 @@ def generate(gen_dir: Path) -> dict:
         'registered': reg_info, 'unregistered': unregistered, 'fields': field_info, 'objects': objs.by_id, 'text': t1 + t2,
         'hidden_state': hidden_state_scan(ops), 'conversions': conversion_scan(ops, field_info),
         'static_equality': eq_problems, 'static_records': {k: [n for n, _ in v] for k, v in records.items()},
-        'ambient_reads': ambient_read_scan(ops),
+        'ambient_reads': ambient_read_scan(ops), 'ambient_rebuilds': ambient_rebuild_scan(ops),
     }
 
 
